@@ -19,14 +19,15 @@ LEVEL = 'exploration'
 QUICK_RUNS = 12000
 QUICK_BUDGET_S = 60
 THOROUGH_BUDGET_S = 600
-RULE = ('export/unexport histories (2-15 steps) over 11 paths including /, /a, /a/b, /a/bc, '
+RULE = ('export/unexport histories (2-15 steps) over 14 paths including /, /a, /a/b, /a/bc, '
         '/a/b/c, with Introspect / GetManagedObjects / ordinary calls sent to exported, '
         'unexported, intermediate and unrelated paths at scheduler-chosen instants (in flight '
         'across steps), seeded delivery interleaving and read splitting')
 STATE_MEASURE = 'distinct (exported path set, query kind, queried path) at processing instants'
 PROBES = ['sibling-prefix-both-exported', 'introspect-intermediate-path', 'introspect-fails',
           'gmo-with-descendants', 'gmo-root', 'query-in-flight-across-export',
-          'query-in-flight-across-unexport', 'call-to-unexported', 'unexport-then-reexport', 'same-instance-reexported',
+          'query-in-flight-across-unexport', 'call-to-unexported', 'unexport-then-reexport', 'same-instance-reexported', 'property-assigned-after-export',
+          'export-over-exported-path',
           'gmo-sibling-prefix-case']
 COMPONENTS = {
     'real': ['txdbus.objects.DBusObjectHandler (exportObject, unexportObject, getManagedObjects, '
@@ -37,7 +38,8 @@ COMPONENTS = {
 }
 ASSUMPTIONS = ['unexport is only issued for exported paths (anything else is a caller error)']
 
-PATHS = ['/', '/a', '/a/b', '/a/bc', '/a/b/c', '/x', '/a/b/c/d', '/ab', '/a_1/b2', '/a_1', '/a/b/c/d/e/f/g/h/i']
+PATHS = ['/', '/a', '/a/b', '/a/bc', '/a/b/c', '/x', '/a/b/c/d', '/ab', '/a_1/b2', '/a_1', '/a/b/c/d/e/f/g/h/i',
+         '/a/a', '/a/ab', '/x/xy']
 QUERY_PATHS = PATHS + ['/a/b/x', '/zz', '/a/bcd', '/x/y/z', '/a_1/b', '/a_']
 E_UNKNOWN_OBJECT = 'org.freedesktop.DBus.Error.UnknownObject'
 STD_IFACES = {'org.freedesktop.DBus.Properties', 'org.freedesktop.DBus.Introspectable',
@@ -109,8 +111,27 @@ def scenario(ctx):
                 replies.setdefault(m.fields.get(rc.F_REPLY_SERIAL), []).append(m)
         return sigs
 
+    def op_assign():
+        # a property of an exported object changes: GetManagedObjects must show the new value
+        cands = [(p, k) for p in sorted(E) for k in sorted(E[p]['vals'])]
+        if not cands:
+            return op_export()
+        p, k = cands[ds.choose(len(cands))]
+        ps, _, acc = E[p]['vals'][k]
+        ref, pyv = gen.prop_value(ds, ps)
+        sim.log('op', 'assign', p, k[0], k[1])
+        sim.probe('property-assigned-after-export')
+        rig.call(setattr, E[p]['obj'], E[p]['cs'].attr(*k), pyv)
+        E[p]['vals'][k] = (ps, ref, acc)
+        epoch[0] += 1
+        new_signals()
+
     def op_export():
         free = [p for p in PATHS if p not in E]
+        if E and ds.flag(0.12):
+            # a different object takes over a path that is still exported
+            free = sorted(E)
+            sim.probe('export-over-exported-path')
         if not free:
             return op_unexport()
         p = free[ds.choose(len(free))]
@@ -210,7 +231,7 @@ def scenario(ctx):
             if budget[0] > 0:
                 def op():
                     budget[0] -= 1
-                    (op_export if ds.flag(0.6) else op_unexport)()
+                    (op_export, op_unexport, op_assign)[ds.weighted([6, 4, 1.5])]()
                 ops.append(('tree', op))
             if qbudget[0] > 0:
                 def opq():
